@@ -200,6 +200,26 @@ class _IfSimplify(ast.NodeTransformer):
     def __init__(self, facts):
         self.facts = facts
         self.changed = False
+        self.derived = []
+
+    def visit_BoolOp(self, node):
+        self.generic_visit(node)
+        # `a and b` known truthy on this path has the value of b (and a is
+        # truthy); `a or b` known falsy has the value of b (and a is falsy)
+        if True:
+            # (the expression is the resolved value of a local that was tested:
+            # the fact and this occurrence denote the same evaluation)
+            c, pol = canon(node, True)
+            t = self.facts.get(c)
+            if t is not None:
+                truthy = (t == pol)
+                if isinstance(node.op, ast.And) and truthy or \
+                        isinstance(node.op, ast.Or) and not truthy:
+                    self.changed = True
+                    for v in node.values:
+                        self.derived.append((v, truthy))
+                    return node.values[-1]
+        return node
 
     def visit_IfExp(self, node):
         self.generic_visit(node)
@@ -214,7 +234,8 @@ class _IfSimplify(ast.NodeTransformer):
 
 def _simplify_ifexps(ps):
     def has_ifexp(e):
-        return e is not None and any(isinstance(x, ast.IfExp) for x in ast.walk(e))
+        return e is not None and any(isinstance(x, (ast.IfExp, ast.BoolOp))
+                                     for x in ast.walk(e))
     tr = _IfSimplify(ps.facts)
     for e in ps.events:
         if has_ifexp(e.r):
@@ -245,6 +266,30 @@ def _simplify_ifexps(ps):
                     continue
             new_order.append((c, t, p))
         ps.order = new_order
+    # a truthy conjunction / falsy disjunction established as ONE fact (a
+    # boolean value held in a local and tested later) is the facts of its
+    # operands
+    new_order = []
+    for c, t, p in ps.order:
+        done = False
+        if (' and ' in c or ' or ' in c) and not c.startswith(('ITER(', 'EXCEPT(')):
+            try:
+                e = ast.parse(c, mode='eval').body
+            except SyntaxError:
+                e = None
+            if isinstance(e, ast.BoolOp) and (
+                    (isinstance(e.op, ast.And) and t) or
+                    (isinstance(e.op, ast.Or) and not t)):
+                ps.facts.pop(c, None)
+                for v in e.values:
+                    c2, pol = canon(v, True)
+                    t2 = t if pol else (not t)
+                    ps.facts[c2] = t2
+                    new_order.append((c2, t2, p))
+                done = True
+        if not done:
+            new_order.append((c, t, p))
+    ps.order = new_order
 
 
 def _mark_stale(ps, stale, since):
